@@ -45,15 +45,30 @@ def uses_strings(texts):
     return False
 
 
-def gen_worker(job):
+def split_worker(job):
     prop, ci, gi = job
+    try:
+        mod = load_prop(prop)
+        reg = mod.REGISTRY
+        c = [x for x in reg.all if not x.callee_only][ci]
+        if not getattr(c, "parallel", False):
+            return [job + ((),)]
+        roots = cm.split_roots(c, c.configs[gi], reg)
+        return [job + (tuple(r),) for r in roots]
+    except Exception:
+        return [job + ((),)]
+
+
+def gen_worker(job):
+    prop, ci, gi = job[:3]
+    root = job[3] if len(job) > 3 else ()
     t0 = time.time()
     try:
         mod = load_prop(prop)
         reg = mod.REGISTRY
         c = [x for x in reg.all if not x.callee_only][ci]
         cfg = c.configs[gi]
-        res = cm.verify_contract(c, cfg, reg)
+        res = cm.verify_contract(c, cfg, reg, root=root)
         groups = {}
         for ob, pc, decls, usorts, values in res.obligs:
             pct = tuple(p.sx for p in pc)
@@ -104,14 +119,34 @@ def gen_worker(job):
                                  "usorts": usorts})
         return {"ok": True, "contract": c.name, "cfg": cfg_name(cfg), "scripts": scripts, "undecided": und,
                 "npaths": res.npaths, "exits": exits, "exit_scripts": exit_scripts, "source": res.source,
-                "gen_s": time.time() - t0, "truncated": res.truncated, "all_exits": [
-                    {"kind": k, "pc": [p.sx for p in pc],
-                     "decls": [(n, [smt.sort_name(a) for a in args], smt.sort_name(r)) for n, args, r in decls],
-                     "tsorts": sorted({x for _, args, r in decls for x in _tsorts(list(args) + [r])},
-                                      key=lambda z: (z.count("Tup_"), len(z), z)),
-                     "usorts": usorts} for k, pc, decls, usorts in res.exits if k != "cut"]}
+                "gen_s": time.time() - t0, "truncated": res.truncated}
     except Exception:
         return {"ok": False, "job": job, "error": traceback.format_exc()}
+
+
+def merge_gens(gens):
+    """results of the sub-trees of one contract x config are merged back"""
+    out = {}
+    order = []
+    for g in gens:
+        if not g["ok"]:
+            return [g] + [x for x in gens if x["ok"]]
+        key = (g["contract"], g["cfg"])
+        if key not in out:
+            out[key] = g
+            order.append(key)
+            continue
+        m = out[key]
+        m["scripts"].extend(g["scripts"])
+        m["undecided"].extend(g["undecided"])
+        m["npaths"] += g["npaths"]
+        for k, v in g["exits"].items():
+            m["exits"][k] = m["exits"].get(k, 0) + v
+        kinds = {e["kind"] for e in m["exit_scripts"]}
+        m["exit_scripts"].extend(e for e in g["exit_scripts"] if e["kind"] not in kinds)
+        m["gen_s"] = max(m["gen_s"], g["gen_s"])
+        m["truncated"] = m["truncated"] or g["truncated"]
+    return [out[k] for k in order]
 
 
 def _tsorts(sorts):
@@ -132,7 +167,7 @@ def cfg_name(cfg):
 # stage 2: discharge
 # ---------------------------------------------------------------------------
 
-def script_text(s, goals, backend, timeout_ms, with_values=True, extra_asserts=()):
+def script_text(s, goals, backend, timeout_ms, with_values=True, extra_asserts=(), check_pc=False):
     L = []
     if backend == "z3":
         L.append(f"(set-option :timeout {timeout_ms})")
@@ -147,8 +182,9 @@ def script_text(s, goals, backend, timeout_ms, with_values=True, extra_asserts=(
         L.append(f"(assert {a})")
     for a in extra_asserts:
         L.append(f"(assert {a})")
-    L.append('(echo "@pc")')
-    L.append("(check-sat)")
+    if check_pc or not goals:
+        L.append('(echo "@pc")')
+        L.append("(check-sat)")
     for g in goals:
         L.append("(push 1)")
         L.append(f'(echo "@goal {g["id"]}")')
@@ -161,52 +197,193 @@ def script_text(s, goals, backend, timeout_ms, with_values=True, extra_asserts=(
     return "\n".join(L) + "\n"
 
 
+def _quantified(a):
+    return "(forall " in a or "(exists " in a
+
+
+_TOK = smt._TOK
+
+
+def _syms(text, consts):
+    return smt.syms_of(text, consts)
+
+
+cone = smt.cone
+
+
+def _backend_order(texts):
+    return ["cvc5", "z3"] if uses_strings(texts) else ["z3", "cvc5"]
+
+
+def _run_goals(s, pc, goals, backend, timeout_s, with_values=True):
+    """both back ends race on the same obligation text; per goal the first decisive
+    answer wins (a sat/unsat disagreement is reported as unknown + engine note)"""
+    texts = {be: script_text(dict(s, pc=pc), goals, be, int(timeout_s * 1000), with_values=with_values)
+             for be in ("z3", "cvc5")}
+    budget = timeout_s * (len(goals) + 1)
+
+    def decisive(out):
+        p = smt.parse_output(out)
+        return all(p["goals"].get(g["id"], ["unknown"])[0] in ("sat", "unsat") for g in goals) or p["pc"] == "unsat"
+
+    outs = smt.run_portfolio(texts, timeout_s, budget, decisive)
+    merged = {"pc": None, "goals": {}, "by": {}}
+    secs = 0.0
+    raw = ""
+    for be, (out, t) in outs.items():
+        secs = max(secs, t)
+        raw += out[-300:]
+        p = smt.parse_output(out)
+        if p["pc"] in ("sat", "unsat") and merged["pc"] is None:
+            merged["pc"] = p["pc"]
+        for gid, r in p["goals"].items():
+            cur = merged["goals"].get(gid)
+            if r[0] in ("sat", "unsat"):
+                if cur is None or cur[0] not in ("sat", "unsat"):
+                    merged["goals"][gid] = r
+                    merged["by"][gid] = be
+                elif cur[0] != r[0]:
+                    merged["goals"][gid] = ["unknown", "DISAGREEMENT between back ends"]
+            elif cur is None:
+                merged["goals"][gid] = r
+    return merged, secs, raw
+
+
+def _prune_decls(s, pc, goals):
+    """keep only declarations that occur in the text (smaller scripts, and the
+    back end choice then depends on what the query really contains)"""
+    text = " ".join(pc) + " " + " ".join(g["goal"] for g in goals) + " " + " ".join(v for v, _ in s.get("values", []))
+    toks = set(_TOK.findall(text))
+    return [d for d in s["decls"] if d[0] in toks]
+
+
 def solve_script(args):
+    """Discharge the goals of one path-condition group.
+    A: all goals as one conjunction under the quantifier-free part of the pc;
+    B: goal by goal under the quantifier-free part ('sat' is final only if nothing was dropped);
+    C: goal by goal under growing cones of influence of the full pc;
+    D: remaining goals under the full pc, first back end then the other.
+    Dropping assumptions (A-C) is sound: it can only make a proof harder."""
     s, timeout_s, both = args
     for k, g in enumerate(s["goals"]):
         g["id"] = f"g{k}"
-    texts = s["pc"] + [g["goal"] for g in s["goals"]] + [r for _, _, r in s["decls"]]
-    order = ["cvc5", "z3"] if uses_strings(texts) else ["z3", "cvc5"]
     results = {g["id"]: {"res": "unknown", "backend": None, "ms": 0, "model": ""} for g in s["goals"]}
+    full_pc = s["pc"]
+    qf_pc = [a for a in full_pc if not _quantified(a)]
+    dropped = len(qf_pc) != len(full_pc)
+    consts = {n for n, args_, r in s["decls"] if not args_}
     pcres = None
-    pending = list(s["goals"])
-    for backend in order:
-        if not pending:
-            break
-        txt = script_text(s, pending, backend, int(timeout_s * 1000))
-        out, secs = smt.run_solver(txt, backend, timeout_s * (len(pending) + 1))
-        parsed = smt.parse_output(out)
-        if parsed["pc"] in ("sat", "unsat") and pcres not in ("sat", "unsat"):
-            pcres = parsed["pc"]
+    pending = [g for g in s["goals"] if g["kind"] != "canary"]
+    quick = min(timeout_s, 3)
+    # canaries: a deliberately false clause; one cheap attempt, anything but 'unsat' is the expected outcome
+    for g in s["goals"]:
+        if g["kind"] == "canary":
+            sub = cone(qf_pc, g["goal"], consts, 2)
+            neg = f"(not {g['goal']})"
+            toks = set(_TOK.findall(" ".join(sub) + " " + neg))
+            header = [f"(declare-sort {u} 0)" for u in s["usorts"]] + list(s["tsorts"]) + \
+                [f"(declare-fun {n} ({' '.join(a)}) {r})" for n, a, r in s["decls"] if n in toks]
+            if smt.z3api():
+                res = "unsat" if smt.quick_unsat(header, sub + [neg], 500) else "unknown"
+                results[g["id"]] = {"res": res, "backend": "z3", "ms": 0, "model": ""}
+            else:
+                s2 = dict(s, decls=_prune_decls(s, sub, [g]), values=[])
+                parsed, secs, out = _run_goals(s2, sub, [g], None, 1, with_values=False)
+                r = parsed["goals"].get(g["id"], ["unknown", ""])
+                results[g["id"]] = {"res": r[0], "backend": parsed["by"].get(g["id"]), "ms": int(secs * 1000), "model": ""}
+    # 0: per goal, cone of influence (2 hops) of the quantifier-free pc, in-process z3, memoised
+    #    on (cone, goal): paths that differ only in unrelated decisions share the work
+    if os.environ.get("VERIF_STEP0", "1") != "0" and smt.z3api():
+        still = []
+        t0 = time.time()
+        hdr_cache = {}
+        for g in pending:
+            sub = cone(qf_pc, g["goal"], consts, 2)
+            neg = f"(not {g['goal']})"
+            toks = set(_TOK.findall(" ".join(sub) + " " + neg))
+            header = [f"(declare-sort {u} 0)" for u in s["usorts"]] + list(s["tsorts"]) + \
+                [f"(declare-fun {n} ({' '.join(a)}) {r})" for n, a, r in s["decls"] if n in toks]
+            if smt.quick_unsat(header, sub + [neg], 500):
+                record(g, "unsat", "z3", 0, 1)
+            else:
+                still.append(g)
+        dt = time.time() - t0
+        for g in pending:
+            if g not in still:
+                results[g["id"]]["ms"] = int(dt * 1000 / max(1, len(pending) - len(still)))
+        pending = still
+    # A
+    if len(pending) > 1:
+        conj = {"id": "conj", "goal": "(and " + " ".join(g["goal"] for g in pending) + ")"}
+        be = _backend_order(qf_pc + [conj["goal"]])[0]
+        s2 = dict(s, decls=_prune_decls(s, qf_pc, [conj]), values=[])
+        parsed, secs, out = _run_goals(s2, qf_pc, [conj], be, quick, with_values=False)
+        if parsed["pc"] == "unsat":
+            pcres = "unsat"
+        if parsed["goals"].get("conj", ["unknown"])[0] == "unsat":
+            for g in pending:
+                record(g, "unsat", parsed["by"].get("conj", be), secs, len(pending))
+            pending = []
+    # B
+    if pending:
+        be = _backend_order(qf_pc + [g["goal"] for g in pending])[0]
+        parsed, secs, out = _run_goals(s, qf_pc, pending, be, quick)
+        if parsed["pc"] == "unsat":
+            pcres = "unsat"
+        elif parsed["pc"] == "sat" and not dropped:
+            pcres = "sat"
         still = []
         for g in pending:
             r = parsed["goals"].get(g["id"], ["unknown", ""])
-            if r[0] in ("sat", "unsat"):
-                results[g["id"]] = {"res": r[0], "backend": backend, "ms": int(secs * 1000 / max(1, len(pending))),
-                                    "model": r[1] if r[0] == "sat" else ""}
+            if r[0] == "unsat" or (r[0] == "sat" and not dropped):
+                record(g, r[0], parsed["by"].get(g["id"], be), secs, len(pending), r[1] if r[0] == "sat" else "")
             else:
-                results[g["id"]]["raw"] = out[-400:]
                 still.append(g)
         pending = still
+    # C
+    for hops in (1, 2, 4):
+        if not pending:
+            break
+        still = []
+        for g in pending:
+            sub = cone(full_pc, g["goal"], consts, hops)
+            if len(sub) == len(full_pc):
+                still.append(g)
+                continue
+            be = _backend_order(sub + [g["goal"]])[0]
+            s2 = dict(s, decls=_prune_decls(s, sub, [g]), values=[])
+            parsed, secs, out = _run_goals(s2, sub, [g], be, quick, with_values=False)
+            r = parsed["goals"].get(g["id"], ["unknown", ""])
+            if r[0] == "unsat":
+                record(g, "unsat", parsed["by"].get(g["id"], be), secs, 1)
+            else:
+                still.append(g)
+        pending = still
+    # D
+    if pending:
+        parsed, secs, out = _run_goals(s, full_pc, pending, None, timeout_s)
+        if parsed["pc"] in ("sat", "unsat") and pcres not in ("sat", "unsat"):
+            pcres = parsed["pc"]
+        for g in pending:
+            r = parsed["goals"].get(g["id"], ["unknown", ""])
+            if r[0] in ("sat", "unsat"):
+                record(g, r[0], parsed["by"].get(g["id"]), secs, len(pending), r[1] if r[0] == "sat" else "")
+            else:
+                results[g["id"]]["raw"] = out[-400:]
     return {"script": s, "results": results, "pc": pcres}
 
 
 def check_sat(s, timeout_s, extra=()):
     """satisfiability of a pc (vacuity / feasibility)"""
-    texts = s["pc"] + [r for _, _, r in s["decls"]]
-    order = ["cvc5", "z3"] if uses_strings(texts) else ["z3", "cvc5"]
-    for backend in order:
-        txt = script_text(s, [], backend, int(timeout_s * 1000), extra_asserts=extra)
-        out, secs = smt.run_solver(txt, backend, timeout_s * 2)
-        parsed = smt.parse_output(out)
-        if parsed["pc"] in ("sat", "unsat"):
-            return parsed["pc"]
-    return "unknown"
+    parsed, secs, out = _run_goals(dict(s, pc=list(s["pc"]) + list(extra), values=[]), list(s["pc"]) + list(extra), [],
+                                   None, timeout_s, with_values=False)
+    return parsed["pc"] if parsed["pc"] in ("sat", "unsat") else "unknown"
 
 
 def feas_worker(args):
     s, timeout_s = args
-    return check_sat(s, timeout_s)
+    s = dict(s, pc=[a for a in s["pc"] if not _quantified(a)])
+    return check_sat(s, min(timeout_s, 3))
 
 
 # ---------------------------------------------------------------------------
@@ -300,7 +477,8 @@ def run(prop, tier, seed, timeout_s, args, t_start):
     known = load_known(prop)
     pool = multiprocessing.Pool(args.jobs)
     try:
-        gens = pool.map(gen_worker, jobs, chunksize=1)
+        jobs = [j for js in pool.map(split_worker, jobs, chunksize=1) for j in js]
+        gens = merge_gens(pool.map(gen_worker, jobs, chunksize=1))
         crashed = [g for g in gens if not g["ok"]]
         if crashed:
             for g in crashed:
@@ -314,9 +492,9 @@ def run(prop, tier, seed, timeout_s, args, t_start):
         work = []
         for s in all_scripts:
             gl = s["goals"]
-            for k in range(0, len(gl), 6):
+            for k in range(0, len(gl), 40):
                 s2 = dict(s)
-                s2["goals"] = [dict(x) for x in gl[k:k + 6]]
+                s2["goals"] = [dict(x) for x in gl[k:k + 40]]
                 work.append((s2, timeout_s, tier == "thorough"))
         solved = pool.map(solve_script, work, chunksize=1)
         # undecided paths: ignore if infeasible
@@ -348,7 +526,7 @@ def run(prop, tier, seed, timeout_s, args, t_start):
                    "backend": r["backend"], "ms": r["ms"], "where": g["where"]}
             if g["kind"] == "canary":
                 key = (s["contract"], s["cfg"], g["name"])
-                canary_seen[key] = canary_seen.get(key, False) or r["res"] == "sat"
+                canary_seen[key] = canary_seen.get(key, False) or (r["res"] != "unsat" and sr["pc"] != "unsat")
                 continue
             if r["res"] == "unsat":
                 rec["result"] = "vacuous" if sr["pc"] == "unsat" else "proved"
@@ -469,7 +647,7 @@ def run(prop, tier, seed, timeout_s, args, t_start):
     guard_msgs = []
     for g in gens:
         fe = feasible.get((g["contract"], g["cfg"]), {})
-        if not any(v == "sat" for v in fe.values()):
+        if fe and not any(v in ("sat", "unknown") for v in fe.values()):
             c = next(x for x in reg.all if x.name == g["contract"])
             if not getattr(c, "allow_no_exit", False):
                 guard_msgs.append(f"no feasible exit for {g['contract']} [{g['cfg']}] (contradictory requires?) {fe}")
@@ -488,16 +666,21 @@ def run(prop, tier, seed, timeout_s, args, t_start):
         print(f"VIOLATION property={prop} replay={p}{tail}")
         print(f"  obligation: {rec.get('contract')} :: {rec.get('name')}")
         rc = 1
-    if rc == 0 and guard_msgs:
-        for m in guard_msgs:
-            print("ENGINE-GUARD:", m)
-        rc = 3
-    if rc == 0 and (unknowns or report["undecided"]):
-        for r in unknowns[:20]:
-            print(f"UNDECIDED {r['result']} {r['contract']} [{r['cfg']}] :: {r['name']} {r.get('raw', '')[-200:]}")
-        for u in report["undecided"][:20]:
+    for r in unknowns[:20]:
+        print(f"UNDECIDED {r['result']} {r['contract']} [{r['cfg']}] :: {r['name']} {r.get('raw', '')[-200:]}")
+    seen_u = set()
+    for u in report["undecided"]:
+        if (u["contract"], u["msg"]) in seen_u:
+            continue
+        seen_u.add((u["contract"], u["msg"]))
+        if len(seen_u) <= 20:
             print(f"UNDECIDED {u['contract']} [{u['cfg']}] :: {u['msg']} (path {u['pc_status']})")
+    for m in guard_msgs:
+        print("ENGINE-GUARD:", m)
+    if rc == 0 and (unknowns or report["undecided"]):
         rc = 2
+    if rc == 0 and guard_msgs:
+        rc = 3
     print(f"{prop}: {len(gens)} function-configs, {sum(g['npaths'] for g in gens)} paths, "
           f"{n_total} obligations, {n_dis} discharged ({n_vac} on infeasible paths), "
           f"{len(viol_lines)} violations, {len(unknowns) + len(report['undecided'])} undecided, "
